@@ -441,6 +441,7 @@ def _check(prop, tier, seed, args, t0):
             checker_cmd='cd /verif && ./check %s --tier %s' % (prop, tier),
             trusted_base=meta.get('trusted_base', []) + COMMON_TRUSTED,
             functions_under_contract=functions,
+            functions_executed_symbolically=sorted({x for r in results for x in r.get('executed', ())}),
             units=len(results), paths=sum(r['paths'] for r in results),
             solver_obligations=solver_count, solver_time_s={k: round(v, 2) for k, v in solver_time.items()},
             evaluations=n_wit + sum(int(b.get('evaluations', 0)) for b in bounded_res),
@@ -471,7 +472,7 @@ def _check(prop, tier, seed, args, t0):
     json.dump(evidence, open(os.path.join(VERIF, 'evidence', prop + '.json'), 'w'), indent=1, sort_keys=True)
     print('%s: %d/%d obligations discharged (%s), %d paths, %d real-code evaluations, %d violations, %d undecided, %.1fs'
           % (prop, n_ok, n_obl, ', '.join('%s:%d' % kv for kv in sorted(solver_count.items())),
-             sum(r['paths'] for r in results), n_wit, len(violations), len(undecided), wall))
+             sum(r['paths'] for r in results), evidence['coverage']['evaluations'], len(violations), len(undecided), wall))
     if violations:
         return 1
     if errors or guard_errors or engine_mismatch:
